@@ -112,7 +112,7 @@ prop("C01",
 prop("C10",
      trusted_base=["hand model Model/Rpc.lean of both protocol endpoints (host Execve/waitForDone/simple calls; container serve/handleExecve/handleExecveStarted) with FIFO channels; the capacity-1 Go channels are folded into the queues",
                    "hand model Model/Reaper.lean of the hand-off between the container's command server and its reaper goroutine (waitPid / waitPidResult / waitAll / waitAllDone with their capacities; wait4(pid) and wait4(-1) of init; any number of processes left behind, abstracted to 'some alive / some zombies'); tied to the regenerated handleExecveStarted paths, waitLoop paths and channel capacities (Gen.C12) by C10_gen_reaper_server / C10_gen_reaper_loop",
-                   "the host endpoint of the model tied to the regenerated paths of Execve / execveSyncKill / waitForDone and of the six simple calls (Gen.C10: C10_gen_host_paths, C10_gen_simple_calls)",
+                   "the host endpoint of the model tied to the regenerated paths of Execve / execveSyncKill / waitForDone and of the six simple calls (Gen.C10: C10_gen_host_paths, C10_gen_simple_calls); the container endpoint tied to the regenerated paths of handleExecve and its synchronisation closure (C10_gen_container_paths)",
                    "tie: message-kind logs recorded at BOTH endpoints by the verif hooks (container/trace_verif.go) must be a run of the model for every operation of random histories (trace inclusion computed by the driver), plus API result class and a Ping after every step"],
      assumptions=["Go channel/goroutine scheduling beyond the modelled queues; gob framing is C19",
                   "requests fit the transport: a request whose gob encoding exceeds 32 KiB or an Open batch with more than 253 successes (SCM_MAX_FD) loses the environment; recorded as open known findings under C10/C14 (hypothesis 'request fits')"],
